@@ -49,6 +49,9 @@ type ChainSpec struct {
 	Precert     bool
 	PreIssuer   bool // precert signed by a dedicated precert-signing certificate under the last CA
 	PreIssAKI   bool // the pre-issuer carries an AKI
+	// PreIssAKIFull (with PreIssAKI): the pre-issuer's AKI has the keyid, authorityCertIssuer and
+	// authorityCertSerialNumber members (the OpenSSL "keyid,issuer" style), not the key identifier alone
+	PreIssAKIFull bool
 	LeafAKI     bool // the leaf / precert carries an AKI
 	IncludeRoot bool // root present in the submitted chain
 	PoisonPos   int  // position of the poison among the leaf's extensions (mod n+1)
@@ -96,11 +99,18 @@ func inter(parent *pki.Cert, kind string, depth int) *pki.Cert {
 	if c, ok := inters[key]; ok {
 		return c
 	}
-	k := keys.Pick(strings.TrimSuffix(kind, "-nonull"), depth+1)
-	if strings.HasSuffix(kind, "-nonull") {
+	base := strings.TrimSuffix(strings.TrimSuffix(kind, "-cteku"), "-nonull")
+	k := keys.Pick(base, depth+1)
+	if strings.Contains(kind, "-nonull") {
 		k = noNullRSA(k)
 	}
-	c := pki.Issue(parent, pki.CATemplate("World CA "+key, k, int64(1000+len(inters)), pki.KeyID(parent.Key)), key)
+	tmpl := pki.CATemplate("World CA "+key, k, int64(1000+len(inters)), pki.KeyID(parent.Key))
+	if strings.HasSuffix(kind, "-cteku") {
+		// an issuing CA that lists the CT precertificate-signing EKU next to others although it issues final
+		// certificates itself: below a dedicated pre-issuer it is the final issuer all the same
+		tmpl.Exts = append(tmpl.Exts, pki.EKU(pki.OIDEKUServerAuth, pki.OIDEKUCT, pki.OIDEKUClientAuth))
+	}
+	c := pki.Issue(parent, tmpl, key)
 	inters[key] = c
 	return c
 }
@@ -163,17 +173,31 @@ func rootTwin(i, kind int) *pki.Cert {
 
 var preIssuers = map[string]*pki.Cert{}
 
-func preIssuer(parent *pki.Cert, withAKI bool) *pki.Cert {
+func preIssuer(parent *pki.Cert, withAKI bool, fullAKI ...bool) *pki.Cert {
 	mu.Lock()
 	defer mu.Unlock()
+	full := withAKI && len(fullAKI) > 0 && fullAKI[0]
 	key := fmt.Sprintf("%s/pre/%v", parent.Label, withAKI)
+	if full {
+		key += "/full"
+	}
 	if c, ok := preIssuers[key]; ok {
 		return c
 	}
 	k := keys.Pick("p256", 9+len(preIssuers)%5)
 	t := pki.Template{Serial: big.NewInt(int64(5000 + len(preIssuers))), Subject: pki.CN("World PreIssuer " + key), NotBefore: pki.Epoch.AddDate(-1, 0, 0), NotAfter: pki.Epoch.AddDate(10, 0, 0), Key: k,
 		Exts: []pki.Ext{pki.BasicConstraints(true, -1, true), pki.KeyUsage(pki.KUKeyCertSign), pki.EKU(pki.OIDEKUCT), pki.SKI(pki.KeyID(k))}}
-	if withAKI {
+	if full {
+		// keyIdentifier [0], authorityCertIssuer [1] { directoryName [4] }, authorityCertSerialNumber [2]
+		issuerName, serial := parent.Tmpl.Subject.DER(), big.NewInt(77)
+		if parent.Parent != nil {
+			issuerName = parent.Parent.Tmpl.Subject.DER()
+		}
+		if parent.Tmpl.Serial != nil {
+			serial = parent.Tmpl.Serial
+		}
+		t.Exts = append(t.Exts, pki.Ext{OID: pki.OIDExtAKI, Value: derx.Seq(derx.TLV(0x80, pki.KeyID(parent.Key)), derx.TLV(0xa1, derx.TLV(0xa4, issuerName)), derx.TLV(0x82, derx.IntContent(serial)))})
+	} else if withAKI {
 		t.Exts = append(t.Exts, pki.AKI(pki.KeyID(parent.Key)))
 	}
 	c := pki.Issue(parent, t, key)
@@ -189,6 +213,12 @@ func Build(s ChainSpec) *Built {
 	if s.RootOnly {
 		s = ChainSpec{ID: s.ID, Root: s.Root, RootOnly: true, IncludeRoot: true}
 		return &Built{Spec: s, Root: root, Leaf: root, Issuer: root, Path: []*pki.Cert{root}, Full: [][]byte{root.DER}, Submit: [][]byte{root.DER}}
+	}
+	if n := len(s.Inters); n > 0 && s.Precert && !s.PreIssuer && strings.HasSuffix(s.Inters[n-1], "-cteku") {
+		// a CA with the CT EKU that signs a precertificate itself IS a precertificate signing certificate by RFC 6962
+		// s3.1: that reading is a different shape (PreIssuer); here the issuing CA of a direct precertificate never has it
+		s.Inters = append([]string{}, s.Inters...)
+		s.Inters[n-1] = strings.TrimSuffix(s.Inters[n-1], "-cteku")
 	}
 	b := &Built{Spec: s, Root: root}
 	ca := root
@@ -209,7 +239,7 @@ func Build(s ChainSpec) *Built {
 	b.Issuer = ca
 	signer := ca
 	if s.Precert && s.PreIssuer {
-		b.PreIssuer = preIssuer(ca, s.PreIssAKI)
+		b.PreIssuer = preIssuer(ca, s.PreIssAKI, s.PreIssAKIFull)
 		signer = b.PreIssuer
 	}
 	lk := keys.Pick(s.LeafKind, int(s.ID))
@@ -342,6 +372,13 @@ func GenSpecX(t *rapid.T, label string) ChainSpec {
 	if len(s.Inters) > 0 && rapid.IntRange(0, 7).Draw(t, label+".nonull") == 0 {
 		// the issuing CA's RSA key is encoded without the NULL algorithm parameters
 		s.Inters[len(s.Inters)-1] = "rsa2048-nonull"
+	}
+	if s.Precert && s.PreIssuer && s.PreIssAKI && rapid.IntRange(0, 2).Draw(t, label+".piakifull") == 0 {
+		s.PreIssAKIFull = true
+	}
+	if n := len(s.Inters); n > 0 && (!s.Precert || s.PreIssuer) && !(n == 1 && s.Cross) && rapid.IntRange(0, 5).Draw(t, label+".cteku") == 0 {
+		// the issuing CA also lists the CT EKU (never for a precertificate it signs itself: RFC 6962 would make it a pre-issuer)
+		s.Inters[n-1] += "-cteku"
 	}
 	if rapid.IntRange(0, 15).Draw(t, label+".rootonly") == 0 {
 		s = ChainSpec{ID: s.ID, Root: s.Root, RootOnly: true, IncludeRoot: true}
